@@ -202,6 +202,12 @@ class MyPyAstVisitor:
 
             if hasattr(superclass, "fullname"):
                 superclass_qname = superclass.fullname
+                if not superclass_qname and isinstance(superclass, mp_nodes.MemberExpr):
+                    # A member of a module that mypy could not resolve has no fullname, so we take the dotted expression
+                    superclass_qname = mp_nodes.get_member_expr_fullname(superclass) or ""
+                if not superclass_qname:
+                    continue
+
                 superclass_name = superclass_qname.split(".")[-1]
 
                 # Check if the superclass name is an alias and find the real name
